@@ -753,3 +753,56 @@ package hermes
 //@   invariant range: 0 <= \i && \i <= l.NRENTW
 //@   invariant partial: l.tendsum == sum(j, 0, \i, 10, g.TSUM[j])
 //@   invariant frame: l.NRENTW == pre(l.NRENTW) && g.NRKOM == pre(g.NRKOM)
+
+// ---------------------------------------------------------------------------
+// C15  soil hydraulic parameters
+// calcWRed takes wilting point and field capacity in PERCENT and stores the threshold as a fraction strictly between them.
+//@ func calcWRed
+//@   serves C15, C07
+//@   requires ordered: wiltingPoint < fieldCapacity
+//@   ensures between: wiltingPoint < g.WRED*100 && g.WRED*100 < fieldCapacity
+//@   modifies g.WRED
+
+// pedotransfer functions on the property's domain: at least 5 % of each fraction, at most 85 % sand, 0-6 % organic carbon
+//@ global define texdomain(c, clay, silt) = 0 <= c && c <= 6 && 5 <= clay && 5 <= silt && 5 <= 100 - clay - silt && 100 - clay - silt <= 85
+//@ func PTF1
+//@   serves C15
+//@   requires domain: texdomain(CGEHALT, TON, SLUF)
+//@   ensures ordered: 0 < wmin && wmin < fc && fc < 1
+//@ func PTF2
+//@   serves C15
+//@   requires domain: texdomain(CGEHALT, TON, SLUF)
+//@   ensures ordered: 0 < wmin && wmin < fc && fc < 1
+//@ func PTF3
+//@   serves C15
+//@   requires domain: texdomain(CGEHALT, TON, SLUF)
+//@   ensures ordered: 0 < wmin && wmin < fc && fc < 1
+
+// below the groundwater table field capacity is pore volume; the layer holding the table is the stated blend
+//@ func setFieldCapacityWithGW
+//@   serves C15, C06
+//@   define top() = floor(g.GRW + 1)
+//@   define frac() = g.GRW + 1 - real(floor(g.GRW + 1))
+//@   requires layers: 1 <= g.N && g.N <= 20
+//@   requires level: g.GRW >= 0
+//@   ensures below: forall(l, 1, g.N+1, l > top() ==> g.W[l-1] == g.PORGES[l-1])
+//@   ensures table: forall(l, 1, g.N+1, l == top() ==> g.W[l-1] == (1-frac())*g.PORGES[l-1] + old(g.W[l-1])*frac())
+//@   ensures above: forall(l, 1, g.N+1, l < top() ==> g.W[l-1] == old(g.W[l-1]))
+//@   ensures rest: forall(k, g.N, 21, g.W[k] == old(g.W[k]))
+//@   ensures ordered: forall(k, 0, g.N, old(g.WMIN[k]) < old(g.W[k]) && old(g.W[k]) <= old(g.PORGES[k]) ==> g.WMIN[k] < g.W[k] && g.W[k] <= g.PORGES[k])
+//@   modifies g.W
+//@   safety[C15] index
+//@ loop setFieldCapacityWithGW#1
+//@   invariant range: top() <= \i && (\i <= g.N+1 || \i == top())
+//@   invariant below: forall(j, 1, \i, j > top() ==> g.W[j-1] == g.PORGES[j-1])
+//@   invariant table: forall(j, 1, \i, j == top() ==> g.W[j-1] == (1-frac())*g.PORGES[j-1] + old(g.W[j-1])*frac())
+//@   invariant rest: forall(j, 1, 22, (j < top() || j >= \i) ==> g.W[j-1] == old(g.W[j-1]))
+//@ func PTF4
+//@   serves C15
+//@   requires domain: texdomain(CGEHALT, TON, 100 - TON - SSAND) && 5 <= SSAND && SSAND <= 85
+//@   cases CGEHALT <= 3
+//@   cases TON <= 45
+//@   cases SSAND <= 45
+//@   ensures positive: 0 < wmin
+//@   ensures ordered: wmin < fc
+//@   ensures below1: fc < 1
